@@ -1806,7 +1806,7 @@ def run_rwr(col, r, tier):
                 col.exhaustive = False
                 break
         info["tasks"].append({"template": template, "selection": sel, "fmt": fmt, "mode": mode,
-                              "evaluated": col.evaluations - n0, "complete": not stop})
+                              "evaluated": col.evaluations - n0, "complete": not stop, "at_s": round(time.time() - t0, 1)})
     info["wall_s"] = round(time.time() - t0, 1)
     return info
 
@@ -1889,7 +1889,8 @@ def run_decision(col, r, tier):
                         col.exhaustive = False
                         break
             info["exhaustive"].append({"len": L, "fmt": fmt, "mode": mode, "alphabet": level, "n_ops": len(ops),
-                                       "evaluated": col.evaluations - n0, "complete": complete})
+                                       "evaluated": col.evaluations - n0, "complete": complete,
+                                       "at_s": round(time.time() - t0, 1)})
 
     linear(lin, 0.7)
     for family, which, fmt, mode in ret:
